@@ -226,27 +226,38 @@ def mapM' {α β} (f : α → Option β) : List α → Option (List β)
     | some y, some ys => some (y :: ys)
     | _, _ => none
 
+/-- the `Coordinates` array: every point through `_make_3d` -/
+def pointArray (cvt : Nat → Nat) (F : WFields) : WArr :=
+  let p3 := F.points.map (make3d cvt)
+  -- `make_array([])` of an empty point list is a float64 array of shape (0,)
+  if F.points.isEmpty then ⟨"float64", 0, [], []⟩
+  else ⟨if F.dim = 3 then F.ptype else "float64", p3.length, [3], p3.flatMap id⟩
+
+/-- the three `Cells` arrays: the given items, or an empty `uint64` array for a mesh without cells -/
+def cellsArray (hasCells : Bool) (name dt : String) (items : List Nat) : Option DataArr :=
+  makeDataArray name (if hasCells then ⟨dt, items.length, [], items⟩ else ⟨"uint64", 0, [], []⟩) (some 1)
+
 /-- `VTUWriter.write` (the element tree, not its serialisation).  `cvt` see `make3d`.
     Cell-data elements are listed in first-occurrence order of their names (the code iterates a
     Python `set`: the order in the file is arbitrary, the reader keys them by name). -/
-def writeVtu (cvt : Nat → Nat) (F : WFields) : Option VtuFile := do
-  let pd ← mapM' (fun (f : String × WArr) => makeDataArray f.1 f.2 none) F.pf
+def writeVtu (cvt : Nat → Nat) (F : WFields) : Option VtuFile :=
   let names := dedup (F.cf.map (·.1))
-  let cd ← mapM' (fun n => do let v ← cellFieldValues F n; makeDataArray n v none) names
-  let p3 := F.points.map (make3d cvt)
-  let pdt := if F.dim = 3 then F.ptype else "float64"
-  -- `make_array([])` of an empty point list is a float64 array of shape (0,)
-  let parr : WArr := if F.points.isEmpty then ⟨"float64", 0, [], []⟩ else ⟨pdt, p3.length, [3], p3.flatMap id⟩
-  let pts ← makeDataArray "Coordinates" parr none
   let cs := allCells F.cells
   let hasCells := !cs.isEmpty
-  let mk (name : String) (dt : String) (items : List Nat) : Option DataArr :=
-    makeDataArray name (if hasCells then ⟨dt, items.length, [], items⟩ else ⟨"uint64", 0, [], []⟩) (some 1)
-  let conn ← mk "connectivity" F.conntype (cs.flatMap (·.2))
-  let offs ← mk "offsets" "int64" (runningSums 0 (cs.map (·.2.length)))
-  let tys ← mapM' (fun (c : String × List Nat) => cellTypeIndex c.1) cs
-  let types ← mk "types" "int64" tys
-  some ⟨F.points.length, (F.cells.map (·.2.length)).foldr (· + ·) 0, pd, cd, pts, conn, offs, types⟩
+  match mapM' (fun (f : String × WArr) => makeDataArray f.1 f.2 none) F.pf,
+        mapM' (fun n => match cellFieldValues F n with
+                        | none => none
+                        | some v => makeDataArray n v none) names,
+        makeDataArray "Coordinates" (pointArray cvt F) none,
+        cellsArray hasCells "connectivity" F.conntype (cs.flatMap (·.2)),
+        cellsArray hasCells "offsets" "int64" (runningSums 0 (cs.map (·.2.length))),
+        mapM' (fun (c : String × List Nat) => cellTypeIndex c.1) cs with
+  | some pd, some cd, some pts, some conn, some offs, some tys =>
+    match cellsArray hasCells "types" "int64" tys with
+    | some types =>
+      some ⟨F.points.length, (F.cells.map (·.2.length)).foldr (· + ·) 0, pd, cd, pts, conn, offs, types⟩
+    | none => none
+  | _, _, _, _, _, _ => none
 
 /-! ### the reader (`VTUReader._make_mesh`, `VTKXMLReader.read`) -/
 
